@@ -252,7 +252,7 @@ PROPS["C08"] = {
                   "(1/k!)^(R-1) if iteration were really order-dependent, e.g. < 10^-8 for k=3, R=12.",
     "technique": "property-based testing with a repetition (run-twice) oracle biased to map-iteration sites (rapid)",
     "tests": [
-        {"name": "TestProp", "quick": {"shards": 8, "checks": 2000}, "thorough": {"shards": 16, "checks": 8000}},
+        {"name": "TestProp", "quick": {"shards": 8, "checks": 1500}, "thorough": {"shards": 16, "checks": 8000}},
     ],
     "rule": "cases: programs built around the places evy keeps things in Go maps (map literals with 3-8 pairs whose values are tracer "
             "calls, variables, literals and empty literals from type-compatible families; mixed array literals; 2-6 unused variables in "
